@@ -3,7 +3,7 @@
   of those properties as predicates on what the implementation answered.
 
   case : ecs=<0|1> addr=<none|4:hex8|6:hex32> rules=<rule>;<rule>… nups=<n> u<k>=<fail|reply> r<k>.<msg token>… <query msg tokens>
-         rule := <*|name,name,…>/<reverse 0|1>/<reject rcode>/<upstream index|->
+         rule := <*|s<set index>|name,name,…>/<reverse 0|1>/<reject rcode>/<upstream index|->   sets=<name,…;name,…> (shared domain sets)
   out  : <response msg tokens> rule=<idx> fw=<k>:<hex of the query sent to upstream k> …
 -/
 import MosVerif.Model.Router
@@ -19,10 +19,16 @@ def addrOfStr (s : String) : Option Addr :=
     | ["6", h] => (bytesOfHex h).map .v6
     | _ => none
 
-def ruleOfStr (s : String) : Option Rule :=
+/-- `sets=<name,name;name,…>`: the shared domain sets a rule may refer to as `s<idx>` -/
+def setsOfStr (s : String) : Option (List (List Name)) :=
+  if s == "-" then some [] else (s.splitOn ";").mapM (fun t => (t.splitOn ",").mapM bytesOfHex)
+
+def ruleOfStr (sets : List (List Name)) (s : String) : Option Rule :=
   match s.splitOn "/" with
   | [d, rev, rej, fw] => do
-    let doms ← if d == "*" then some none else ((d.splitOn ",").mapM bytesOfHex).map some
+    let doms ← if d == "*" then some none
+      else if d.startsWith "s" then (natOfStr (d.drop 1).toString).bind (fun i => sets[i]?) |>.map some
+      else ((d.splitOn ",").mapM bytesOfHex).map some
     let rev ← boolOfStr rev
     let rej ← natOfStr rej
     let fw ← if fw == "-" then some none else (natOfStr fw).map some
@@ -37,8 +43,11 @@ def replyToks (toks : List String) (k : Nat) : List String :=
 def envOfToks (toks : List String) : Option Env := do
   let ecs ← (kvGet toks "ecs").bind boolOfStr
   let addr ← (kvGet toks "addr").bind addrOfStr
+  let sets ← match kvGet toks "sets" with
+    | some v => setsOfStr v
+    | none => some []
   let rulesS ← kvGet toks "rules"
-  let rules ← if rulesS == "-" then some [] else (rulesS.splitOn ";").mapM ruleOfStr
+  let rules ← if rulesS == "-" then some [] else (rulesS.splitOn ";").mapM (ruleOfStr sets)
   let n ← kvNat toks "nups"
   let ups ← (List.range n).mapM fun k =>
     match kvGet toks s!"u{k}" with
